@@ -3,6 +3,7 @@ package engine
 import (
 	"fmt"
 	"os"
+	"path/filepath"
 	"sort"
 	"strings"
 	"testing"
@@ -390,6 +391,24 @@ func laneP_C18(t *testing.T, plan *Plan, w *World, sink *Sink) {
 			if err := materialize(dir, rr.Before, w.FS.dirs); err != nil {
 				sink.res.Harness = append(sink.res.Harness, "lane P materialize: "+err.Error())
 				return
+			}
+			// some configuration files are symbolic links (a config kept elsewhere and linked in): they
+			// are configuration files like the others - part of the graph, checked, and given artifacts
+			lr := NewRng(Mix(plan.Seed, uint64(6161+rr.Op.ID)))
+			if lr.Chance(1, 3) {
+				store := dir + "-linked"
+				if os.MkdirAll(store, 0755) == nil {
+					defer removeAll(store)
+					for _, e := range w.Entities() {
+						pth := filepath.Join(dir, filepath.FromSlash(e.Path()))
+						if _, err := os.Lstat(pth); err == nil && lr.Chance(1, 2) {
+							target := filepath.Join(store, fmt.Sprintf("%s-%d.cfg", e.ID, lr.Intn(1000)))
+							if os.Rename(pth, target) == nil && os.Symlink(target, pth) == nil {
+								sink.Cell("lane:P:symlinked-config")
+							}
+						}
+					}
+				}
 			}
 			before, _ := readDirSnap(dir)
 			yes := "y\n"
